@@ -16,9 +16,7 @@ package compression
 //   TestVerifConsts      the package's name constants and enum tables as Coq.
 
 import (
-	"bytes"
 	"fmt"
-	"io"
 	"os"
 	"strings"
 	"testing"
@@ -125,42 +123,7 @@ func verifNewComp(enc int64, ctor int64) (connect.Compressor, bool) {
 	return nil, false
 }
 
-// one step, with its own panic recovery: a crash ends the history
-func verifStep(f func() vsx) (res vsx, crashed bool) {
-	defer func() {
-		if r := recover(); r != nil {
-			if os.Getenv("VERIF_DEBUG") != "" {
-				fmt.Fprintf(os.Stderr, "verif c20: step panic: %v\n", r)
-			}
-			res, crashed = vCrash(), true
-		}
-	}()
-	return f(), false
-}
-
-func verifOK() vsx  { return vL(vS("ok")) }
-func verifAny() vsx { return vL(vS("any")) }
-func verifOKFlag(b bool) vsx {
-	return vL(vS("ok"), vBool(b))
-}
-
-// args: enc ctor (ops)
-//
-//	(0 k)              compressor.Reset(destination k := new buffer)
-//	(1 bytes)          compressor.Write
-//	(2)                compressor.Close     -> ok + "a fresh library reader decodes the destination to what was written since Reset"
-//	(3 k kind)         decompressor.Reset(content of destination k as it was at its Close)
-//	(4 kind src cls y) decompressor.Reset(src); cls / y = what a fresh library reader makes of src
-//	(5)                io.ReadAll(decompressor)  -> ok + "equals what is still expected"
-//	(6 n)              read up to n bytes        -> ok + "equals the next n expected bytes"
-//	(7)                decompressor.Close
-//
-// A step is reported in full where the wrapper logic and the documented contract of the
-// library fix the result: every Reset; reads and Close of a decompressor positioned on a
-// source of known class (1: decodes, 2: fails after some bytes) before any failure or
-// Close; Write / Close of a compressor between Reset and Close.  Elsewhere the result is
-// the library's business and only "panicked or not" is reported ((any) / (crash)).
-// The same rule is part of the model's result encoding (C20_Model.v h_step).
+// args: enc ctor (ops) — the driver is verifHistRun (zz_verif_c20lib_test.go)
 func verifC20Hist(args []vsx) vsx {
 	enc, ctor := args[0].i, args[1].i
 	if enc < 1 || enc > 6 {
@@ -171,173 +134,7 @@ func verifC20Hist(args []vsx) vsx {
 	if !ok1 || !ok2 {
 		return vL(vS("bad-case"))
 	}
-	type sink struct {
-		content []byte
-		acc     []byte
-	}
-	const (
-		dFresh = iota
-		dP1
-		dP2
-		dU
-	)
-	const (
-		cFresh = iota
-		cOpen
-		cDone
-	)
-	// a literal source must carry what a fresh library reader really makes of it (the first pass of
-	// the generator computed it; a case mangled by the shrinker is not a case)
-	for _, op := range args[2].l {
-		if len(op.l) == 5 && op.l[0].i == 4 {
-			cls, y := verifLibFresh(int(enc), int(op.l[1].i), op.l[2].b)
-			if int64(cls) != op.l[3].i || !bytes.Equal(y, op.l[4].b) {
-				return vL(vS("bad-case"))
-			}
-		}
-	}
-	// Write / Close on a library writer that never had a destination is the library's business
-	// (the contract leaves it open): not a case
-	if enc != 1 {
-		for _, op := range args[2].l {
-			if op.l[0].i == 0 {
-				break
-			}
-			if op.l[0].i == 1 || op.l[0].i == 2 {
-				return vL(vS("bad-case"))
-			}
-		}
-	}
-	closed := map[int64]*sink{}
-	var curID int64
-	var curBuf *bytes.Buffer
-	var acc []byte
-	cpos, dpos := cFresh, dFresh
-	var rem []byte // what the decompressor is still expected to deliver
-	var out []vsx
-	resetD := func(src io.Reader, cls int64, y []byte) vsx {
-		rem = nil
-		dpos = dU
-		if err := decomp.Reset(src); err != nil {
-			return vErr("e")
-		}
-		rem = y
-		switch cls {
-		case 1:
-			dpos = dP1
-		case 2:
-			dpos = dP2
-		}
-		return verifOK()
-	}
-	for _, op := range args[2].l {
-		op := op
-		var f func() vsx
-		switch op.l[0].i {
-		case 0:
-			f = func() vsx {
-				curID, curBuf, acc, cpos = op.l[1].i, &bytes.Buffer{}, nil, cOpen
-				comp.Reset(curBuf)
-				return verifOK()
-			}
-		case 1:
-			f = func() vsx {
-				b := op.l[1].b
-				n, err := comp.Write(b)
-				if cpos != cOpen {
-					return verifAny()
-				}
-				if err != nil || n != len(b) {
-					return vErr("e")
-				}
-				acc = append(acc, b...)
-				return verifOK()
-			}
-		case 2:
-			f = func() vsx {
-				err := comp.Close()
-				if cpos != cOpen {
-					return verifAny()
-				}
-				if err != nil {
-					return vErr("e")
-				}
-				cpos = cDone
-				s := &sink{content: append([]byte(nil), curBuf.Bytes()...), acc: acc}
-				closed[curID] = s
-				cls, y := verifLibFresh(int(enc), 0, s.content)
-				return verifOKFlag(cls == 1 && bytes.Equal(y, s.acc))
-			}
-		case 3:
-			s := closed[op.l[1].i]
-			if s == nil {
-				return vL(vS("bad-case"))
-			}
-			f = func() vsx { return resetD(verifSource(int(op.l[2].i), s.content), 1, s.acc) }
-		case 4:
-			f = func() vsx { return resetD(verifSource(int(op.l[1].i), op.l[2].b), op.l[3].i, op.l[4].b) }
-		case 5, 6:
-			f = func() vsx {
-				var rd io.Reader = decomp
-				want := rem
-				limited := op.l[0].i == 6
-				if limited {
-					n := op.l[1].i
-					rd = io.LimitReader(decomp, n)
-					if int64(len(want)) > n {
-						want = want[:n]
-					}
-				}
-				full := dpos == dP1 || (dpos == dP2 && !limited)
-				y, err := io.ReadAll(rd)
-				switch {
-				case dpos == dP1 && err == nil:
-				case dpos == dFresh:
-				default:
-					dpos = dU
-				}
-				if err != nil {
-					if full {
-						return vErr("e")
-					}
-					return verifAny()
-				}
-				eq := bytes.Equal(y, want)
-				if len(y) <= len(rem) {
-					rem = rem[len(y):]
-				} else {
-					rem = nil
-				}
-				if full {
-					return verifOKFlag(eq)
-				}
-				return verifAny()
-			}
-		case 7:
-			f = func() vsx {
-				full := dpos == dP1
-				if dpos != dFresh {
-					dpos = dU
-				}
-				err := decomp.Close()
-				if !full {
-					return verifAny()
-				}
-				if err != nil {
-					return vErr("e")
-				}
-				return verifOK()
-			}
-		default:
-			return vL(vS("bad-case"))
-		}
-		res, crashed := verifStep(f)
-		out = append(out, res)
-		if crashed {
-			break
-		}
-	}
-	return vL(out...)
+	return verifHistRun(enc, comp, decomp, args[2].l)
 }
 
 // ---------------------------------------------------------------------------
@@ -368,7 +165,7 @@ func TestVerifC20Oracle(t *testing.T) {
 		if op == 0 {
 			res = vL(id, vB(verifLibCompress(alg, b)))
 		} else {
-			cls, y := verifLibFresh(alg, kind, b)
+			cls, y := verifLibClass(alg, kind, b)
 			if len(y) > 1<<20 {
 				cls, y = 3, nil // too large to carry around: the generator drops such sources
 			}
